@@ -5,7 +5,7 @@
    buckets included.  Children are called in the order they were given: the
    global log records (child index, event) in call order. *)
 From Coq Require Import ZArith List Bool.
-From Tally Require Import Base.Obs.
+From Tally Require Import Base.ObsCore.
 Import ListNotations.
 Open Scope Z_scope.
 
